@@ -43,7 +43,7 @@ fn dce_block_with_live(
                 let e = dce_expr(e);
                 // keep expression statements; they may have side-effects
                 add_uses_expr(&mut live, &e);
-                out.push(ast::Stmt::Expr(e));
+                out.push(effect_only_stmt(e));
             }
             ast::Stmt::Go { call } => {
                 let call = dce_expr(call);
@@ -636,11 +636,43 @@ fn expr_has_side_effects(e: &ast::Expr) -> bool {
 /// expression statement, so anything but a call is kept as `_ = e`.
 fn effect_only_stmt(e: ast::Expr) -> ast::Stmt {
     match e {
+        // `append(..)`, `len(..)`, `cap(..)` and conversions such as `int32(..)` are calls in
+        // the Go AST, but Go does not allow them in statement position ("is not used").
+        ast::Expr::Call { ref func, .. } if is_builtin_or_conversion_callee(func) => {
+            ast::Stmt::Assignment {
+                name: "_".to_string(),
+                value: e,
+            }
+        }
         ast::Expr::Call { .. } | ast::Expr::Block { .. } => ast::Stmt::Expr(e),
         other => ast::Stmt::Assignment {
             name: "_".to_string(),
             value: other,
         },
+    }
+}
+
+fn is_builtin_or_conversion_callee(func: &ast::Expr) -> bool {
+    match func {
+        ast::Expr::Var { name, .. } => matches!(
+            name.as_str(),
+            "append"
+                | "len"
+                | "cap"
+                | "int8"
+                | "int16"
+                | "int32"
+                | "int64"
+                | "uint8"
+                | "uint16"
+                | "uint32"
+                | "uint64"
+                | "float32"
+                | "float64"
+                | "string"
+                | "bool"
+        ),
+        _ => false,
     }
 }
 
